@@ -146,16 +146,19 @@ def op_cases(draw, ops=None, dtypes=None, constraint=None, unsupported_rate=0.0,
             s_ = s_[k_:]
             return [1 if draw(st.integers(0, 9)) < 3 else v for v in s_]
 
-        a = draw(st.sampled_from(["full", "sub", "pyscalar", "mutual"]))
-        bb = draw(st.sampled_from(["full", "sub", "pyscalar"])) if a != "pyscalar" else "full"
+        a = draw(st.sampled_from(["full", "full", "sub", "sub", "pyscalar", "mutual", "one"]))
+        bb = draw(st.sampled_from(["full", "full", "sub", "sub", "pyscalar", "one"])) if a != "pyscalar" else "full"
+
+        def one():  # a tensor with a single element: 0-dim or all-ones shape (the library has a dedicated branch for it)
+            return [1] * draw(st.integers(0, len(full)))
         if a == "mutual":
             # both operands broadcast against each other; equal element counts included ((n,1)+(1,n), (n,1)+(n,), (a,1,c)+(1,a,c))
             n_ = draw(st.integers(2, 5))
             va, vb = draw(st.sampled_from([([n_, 1], [1, n_]), ([n_, 1], [n_]), ([n_, 1, 2], [1, n_, 2]), ([n_, 1], [1, n_ + 1]), ([1, n_, 1], [n_, 1, 3])]))
             c.update(a=va, b=vb, scalar=2.5, constraint=cons(TER))
         else:
-            c.update(a=full if a == "full" else (sub() if a == "sub" else "scalar"),
-                     b=full if bb == "full" else (sub() if bb == "sub" else "scalar"),
+            c.update(a=full if a == "full" else (sub() if a == "sub" else (one() if a == "one" else "scalar")),
+                     b=full if bb == "full" else (sub() if bb == "sub" else (one() if bb == "one" else "scalar")),
                      scalar=draw(st.sampled_from([2.5, -1, 0, 3])), constraint=cons(TER))
     elif op == "embedding":
         V = draw(st.integers(2, 10))
@@ -181,6 +184,7 @@ def op_cases(draw, ops=None, dtypes=None, constraint=None, unsupported_rate=0.0,
     c["noncontig"] = draw(st.sampled_from([False, False, False, "transposed", "expanded"]))  # operand memory layout (same values)
     c["positional"] = draw(st.integers(0, 3)) == 0  # every argument of the library call passed positionally (signature order)
     c["up_layout"] = draw(st.sampled_from(["dense", "dense", "dense", "partial-reduction"]))  # memory layout of the upstream gradient
+    c["frozen_role"] = draw(st.sampled_from([None, None, None, 0, 1, 2]))  # one operand (input / weight / bias ...) that does not require a gradient
     # the second data draw uses its own value profile: a scale that depends on magnitudes / sparsity is exposed
     c["profB"] = draw(st.sampled_from(profiles))
     if unsupported_rate and op in UNSUPPORTED and draw(st.floats(0, 1)) < unsupported_rate:
@@ -454,6 +458,16 @@ class Probe:
     grads_fit: int = 0
 
 
+def _agrad(y, ts, up):
+    """gradients with respect to the tensors of `ts` that require one (None for the others)"""
+    idx = [i for i, t in enumerate(ts) if t.requires_grad]
+    out = [None] * len(ts)
+    if idx:
+        for i, g_ in zip(idx, torch.autograd.grad(y, [ts[i] for i in idx], up, allow_unused=True, retain_graph=True)):
+            out[i] = g_
+    return out
+
+
 def probe(c: dict, want_bwd: bool = True, seeds: Optional[List[int]] = None, upstream: int = 1) -> Probe:
     """Run the library op and its reference for the data seeds; fit forward and gradient scalars."""
     P = Probe()
@@ -465,8 +479,10 @@ def probe(c: dict, want_bwd: bool = True, seeds: Optional[List[int]] = None, ups
     for si, seed in enumerate(seeds):
         prof_i = c.get("profB") if si == 1 else None
         bu = build(c, seed, prof=prof_i)
-        tu = [t.clone().requires_grad_() for t in bu.ts]
-        tr = [t.clone().requires_grad_() for t in bu.ts]
+        # which operands require a gradient: all of them, or all but one (a layer fed by data; a frozen weight)
+        frozen = c["frozen_role"] % len(bu.ts) if (c.get("frozen_role") is not None and len(bu.ts) >= 2) else None
+        tu = [t.clone().requires_grad_(i != frozen) for i, t in enumerate(bu.ts)]
+        tr = [t.clone().requires_grad_(i != frozen) for i, t in enumerate(bu.ts)]
         snap = [t.detach().clone() for t in tu]
         ver = [t._version for t in tu]
         try:
@@ -496,7 +512,7 @@ def probe(c: dict, want_bwd: bool = True, seeds: Optional[List[int]] = None, ups
         t64 = y64 = None
         if c["dtype"] != "float64":
             try:
-                t64 = [t.detach().to(D).requires_grad_() for t in bu.ts]
+                t64 = [t.detach().to(D).requires_grad_(i != frozen) for i, t in enumerate(bu.ts)]
                 y64 = bu.r(*t64)
                 nz = noise(yr, y64)
             except Exception:  # noqa: BLE001
@@ -531,12 +547,12 @@ def probe(c: dict, want_bwd: bool = True, seeds: Optional[List[int]] = None, ups
                     k_ = c["seedG"] % yu.dim()
                     gup = gup.narrow(k_, 0, 1).expand(yu.shape)
                 try:
-                    gr = torch.autograd.grad(yr, tr, gup, allow_unused=True, retain_graph=True)
+                    gr = _agrad(yr, tr, gup)
                 except Exception:  # noqa: BLE001
                     P.status = "ref_unsupported"
                     return P
                 try:
-                    gu = torch.autograd.grad(yu, tu, gup, allow_unused=True, retain_graph=True)
+                    gu = _agrad(yu, tu, gup)
                 except Exception as e:  # noqa: BLE001
                     from .runner import exc_bucket
                     P.bwd_fails.append((exc_bucket(f"bwd.raises:{op}", e), f"{type(e).__name__}: {e}"))
@@ -544,7 +560,7 @@ def probe(c: dict, want_bwd: bool = True, seeds: Optional[List[int]] = None, ups
                 g64 = None
                 if y64 is not None:
                     try:
-                        g64 = torch.autograd.grad(y64, t64, gup.to(D), allow_unused=True, retain_graph=True)
+                        g64 = _agrad(y64, t64, gup.to(D))
                     except Exception:  # noqa: BLE001
                         g64 = None
                 for ri, (role, a, b_) in enumerate(zip(bu.roles, gu, gr)):
@@ -647,6 +663,8 @@ def class_labels(c: dict) -> List[str]:
         labs.append(f"constraint={c['constraint']}")
     if op == "sdpa":
         labs.append(f"sdpa:{c['mode']}")
+    if c.get("frozen_role") is not None:
+        labs.append("one-operand-without-grad")
     if c.get("up_layout", "dense") != "dense":
         labs.append("upstream=" + c["up_layout"])
     if c.get("noncontig"):
